@@ -19,12 +19,21 @@ package main
 import (
 	"go/token"
 	"go/types"
+	"strings"
 
 	"golang.org/x/tools/go/ssa"
 )
 
 var uniqueSiteMemo = map[*ssa.Function]ssa.CallInstruction{}
 var uniqueSiteDone = map[*ssa.Function]bool{}
+
+// resetInterpMemo forgets the per-program caches (the self-test analyses a
+// second, in-memory program).
+func resetInterpMemo() {
+	uniqueSiteMemo = map[*ssa.Function]ssa.CallInstruction{}
+	uniqueSiteDone = map[*ssa.Function]bool{}
+	fnValueUseCount = nil
+}
 
 // uniqueSite returns the single call site of fn in the program, when fn is an
 // unexported repository function/method or a closure and the VTA call graph has
@@ -987,7 +996,12 @@ func staleDecodeDests(fns []*ssa.Function) (sites []ssa.CallInstruction, stale [
 			case "(*encoding/json.Decoder).Decode":
 				dest = ci.Common().Args[1]
 			default:
-				continue
+				// binary decoders that fill their receiver additively (gob into a sketch)
+				if n := calleeName(ci); strings.HasSuffix(n, ").GobDecode") || strings.HasSuffix(n, ").UnmarshalBinary") {
+					dest = callArgs(ci)[0]
+				} else {
+					continue
+				}
 			}
 			if !inCycle(ci.Block()) {
 				continue
@@ -1000,6 +1014,13 @@ func staleDecodeDests(fns []*ssa.Function) (sites []ssa.CallInstruction, stale [
 					continue
 				}
 				break
+			}
+			// an object produced by a call (a constructor): fresh iff the call is re-executed in the loop
+			if cc, _, okc := callResult1(strip(v)); okc {
+				if reachPath(ci.Block(), cc.Block(), nil) == nil {
+					stale = append(stale, ci)
+				}
+				continue
 			}
 			al, ok := v.(*ssa.Alloc)
 			if !ok {
